@@ -21,6 +21,7 @@ mod runner;
 mod sched;
 mod sim_arena;
 mod sim_cache;
+mod sim_dom;
 mod sim_io;
 mod sim_lazy;
 mod sinks;
@@ -46,6 +47,12 @@ pub static SIMS: &[SimDef] = &[SimDef {
     prop: "C13",
     run: sim_lazy::run,
     about: "lazy and owned-lazy values as faithful views under histories of reads, clones, conversions and mutations",
+    enumerate: None,
+}, SimDef {
+    name: "dom",
+    prop: "C15",
+    run: sim_dom::run,
+    about: "the mutable DOM against an array/map model under histories over the public mutation API",
     enumerate: None,
 }, SimDef {
     name: "io",
